@@ -81,6 +81,7 @@ pub enum WOp {
     ReimportIgnored,  // export -> clear -> import
     SnapshotIgnored,  // keep the current export aside (e.g. another tab's copy)
     ImportSnapshot,   // import that older snapshot into the current state: must MERGE, not replace
+    ClearIgnored,
     SetConfig(usize),
 }
 
@@ -118,6 +119,7 @@ pub fn wops() -> Vec<WOp> {
         WOp::Import(2),
         WOp::SnapshotIgnored,
         WOp::ImportSnapshot,
+        WOp::ClearIgnored,
         WOp::Migrate,
         WOp::ReimportIgnored,
         WOp::SetConfig(0),
@@ -130,6 +132,7 @@ fn lang(md: bool) -> Language {
     if md { Language::Markdown } else { Language::Plain }
 }
 
+#[derive(Clone)]
 struct IgnoredEntry {
     text: String,
     md: bool,
@@ -210,6 +213,9 @@ pub fn run_w_history_in(ops: &[WOp], seq: &[usize], cache: &mut RefCache, di: us
     let mut last: Option<(String, bool, Vec<harper_wasm::Lint>)> = None;
     let mut prev: Option<(String, bool, Vec<harper_wasm::Lint>)> = None;
     let mut snapshot: Option<String> = None;
+    let mut snapshot_model: Vec<IgnoredEntry> = vec![];
+    let mut ignored_js: Vec<(String, String)> = vec![];
+    let mut snapshot_js: Vec<(String, String)> = vec![];
     let mut steps = 0u64;
     let mut interesting = false;
     for (si, oi) in seq.iter().enumerate() {
@@ -352,6 +358,7 @@ pub fn run_w_history_in(ops: &[WOp], seq: &[usize], cache: &mut RefCache, di: us
                 let copy2 = harper_wasm::Lint::from_json(l.to_json()).unwrap();
                 real.ignore_lint(text.clone(), copy);
                 shadow.ignore_lint(text.clone(), copy2);
+                ignored_js.push((text.clone(), l.to_json()));
                 ignored.push(IgnoredEntry { text: text.clone(), md: *md, lint: inner, flagged });
             }
             WOp::Apply(i, j) => {
@@ -386,13 +393,31 @@ pub fn run_w_history_in(ops: &[WOp], seq: &[usize], cache: &mut RefCache, di: us
                 Ok(n) => real = n,
                 Err(e) => return (Some(("migrate-failed".into(), json!({"step": si, "error": e}))), steps, true),
             },
-            WOp::SnapshotIgnored => snapshot = Some(real.export_ignored_lints()),
+            WOp::ClearIgnored => {
+                real.clear_ignored_lints();
+                shadow.clear_ignored_lints();
+                ignored.clear();
+                ignored_js.clear();
+            }
+            WOp::SnapshotIgnored => {
+                snapshot = Some(real.export_ignored_lints());
+                snapshot_model = ignored.clone();
+                snapshot_js = ignored_js.clone();
+            }
             WOp::ImportSnapshot => {
                 // the union of the current list and an older copy of it is the current list
                 let Some(js) = &snapshot else { continue };
                 if let Err(e) = real.import_ignored_lints(js.clone()) {
                     return (Some(("import-ignored-failed".into(), json!({"step": si, "json": js, "error": e}))), steps, true);
                 }
+                // the shadow never exports or imports: it ignores the same lints directly
+                for (t, js) in &snapshot_js {
+                    if let Ok(l) = harper_wasm::Lint::from_json(js.clone()) {
+                        shadow.ignore_lint(t.clone(), l);
+                    }
+                }
+                ignored_js.extend(snapshot_js.iter().cloned());
+                ignored.extend(snapshot_model.iter().cloned());
             }
             WOp::ReimportIgnored => {
                 let js = real.export_ignored_lints();
@@ -430,6 +455,7 @@ fn describe_w(ops: &[WOp], seq: &[usize]) -> Value {
             WOp::Import(w) => format!("import_words({:?})", W_WORDS[*w]),
             WOp::Migrate => "export words+ignored+config -> new Linter -> import".to_string(),
             WOp::ReimportIgnored => "export_ignored -> clear -> import_ignored".to_string(),
+            WOp::ClearIgnored => "clear_ignored_lints()".to_string(),
             WOp::SnapshotIgnored => "snapshot = export_ignored_lints()".to_string(),
             WOp::ImportSnapshot => "import_ignored_lints(snapshot)".to_string(),
             WOp::SetConfig(c) => format!("set_lint_config_from_json({})", W_CFGS[*c]),
@@ -459,6 +485,23 @@ pub fn run_c16(tier: Tier) -> i32 {
                 if matches!(i, WOp::Ignore(..)) {
                     seqs.push(vec![sn, li, ii, im, li]);
                     seqs.push(vec![li, ii, sn, li, ii, im, li]);
+                }
+            }
+        }
+    }
+    // a SMALL own list absorbing a LARGER older one: lint A, ignore two of its lints, snapshot,
+    // clear, lint B, ignore one of its lints, import the snapshot; B's and A's must all stay hidden
+    {
+        let sn = ops.iter().position(|o| matches!(o, WOp::SnapshotIgnored)).unwrap();
+        let im = ops.iter().position(|o| matches!(o, WOp::ImportSnapshot)).unwrap();
+        let cl = ops.iter().position(|o| matches!(o, WOp::ClearIgnored)).unwrap();
+        let ig: Vec<usize> = ops.iter().enumerate().filter(|(_, o)| matches!(o, WOp::Ignore(..))).map(|(i, _)| i).collect();
+        let lints: Vec<usize> = ops.iter().enumerate().filter(|(_, o)| matches!(o, WOp::Lint(..))).map(|(i, _)| i).collect();
+        for a in &lints {
+            for b in &lints {
+                if a != b && ig.len() >= 2 {
+                    seqs.push(vec![*a, ig[0], *a, ig[0], sn, cl, *b, ig[0], im, *b, *a]);
+                    seqs.push(vec![*a, ig[0], ig[1], sn, cl, *b, ig[0], im, *b, *a]);
                 }
             }
         }
@@ -553,7 +596,7 @@ pub fn run_c16(tier: Tier) -> i32 {
     report.set("exhaustive", true);
     report.sample(describe_w(&ops, &[11, 5, 7]));
     report.sample(describe_w(&ops, &[1, 0, 13]));
-    report.assume("operation alphabet of 22 calls over 6 texts, depth bound as stated (American dialect; the other three dialects one level shallower); states = distinct histories (the history is the state; live objects cannot be hashed)");
+    report.assume("operation alphabet of 23 calls over 6 texts, depth bound as stated (American dialect; the other three dialects one level shallower); states = distinct histories (the history is the state; live objects cannot be hashed)");
     report.assume("reference = fresh core pipeline per query with one dictionary child per user word");
     report.finish()
 }
